@@ -331,7 +331,8 @@ func c02Run(c *fw.Ctx, b fw.Batch) {
 				for d := 0; d < depth; d++ {
 					extCounter++
 					name := fmt.Sprintf("application/x-verif-c02-%d", extCounter)
-					det := func([]byte, uint32) bool { return true }
+					want := inputs[pn]
+					det := func(raw []byte, _ uint32) bool { return bytes.Equal(raw, want) }
 					if cur == "" {
 						mimetype.Extend(det, name, ".c2")
 					} else {
@@ -450,6 +451,9 @@ func init() {
 			c02Judge(c, k)
 		},
 		Finish: func(a *fw.Agg) error {
+			if a.Maxes["deepest_result_hierarchy"] < 6 {
+				return fmt.Errorf("extended-tree batch never produced a hierarchy deeper than the built-in tree (max %d)", a.Maxes["deepest_result_hierarchy"])
+			}
 			if a.Counters["results_with_quoted_or_rfc2231_charset"] < 1000 || a.Counters["results_with_error"] < 1000 {
 				return fmt.Errorf("too few informative results (quoted/rfc2231 %d, with error %d)", a.Counters["results_with_quoted_or_rfc2231_charset"], a.Counters["results_with_error"])
 			}
@@ -458,4 +462,4 @@ func init() {
 	})
 }
 
-var _ = bytes.NewReader
+
